@@ -57,6 +57,42 @@ mod proofs {
     }
 
     // @harness id=C18 tier=quick unwind=10 timeout=2400 fs=4096
+    // @desc share revelation under histories where a peer's message arrives BEFORE the party has sent its own, and where a message is delivered twice: the party still broadcasts exactly its OWN share (byte-identical to what it sends when nothing has arrived), and finish() still returns own share + each other share once
+    // @bounds BFV N=2, q={97}; 3 parties, party 0's view; shares = all canonical polynomials; history: receive(1); send; receive(1) again; receive(2); finish
+    // @funcs PolynomialRevelationProtocol::receive, PolynomialRevelationProtocol::send, PolynomialRevelationProtocol::finish
+    // @stubs HeContext::get_context_data -> linear search over the literal chain; alloc::sync::Arc::drop_slow -> no-op
+    #[kani::proof]
+    #[kani::stub(crate::context::HeContext::get_context_data, crate::context::verif_v::get_context_data_stub)]
+    #[kani::stub(alloc::sync::Arc::drop_slow, crate::verif_v::arc_drop_slow_noop)]
+    fn c18_receive_before_send_and_redelivery() {
+        let ctx = lits::ctx_bfv_n2_1p();
+        let pid = *ctx.first_parms_id();
+        let p0 = participant(&ctx, pid, 3, 0); let p1 = participant(&ctx, pid, 3, 1); let p2 = participant(&ctx, pid, 3, 2);
+        let s: [u8; 6] = kani::any();
+        kani::assume(s[0] < 97 && s[1] < 97 && s[2] < 97 && s[3] < 97 && s[4] < 97 && s[5] < 97);
+        let sh = |a: u8, b: u8| vec![a as u64, b as u64];
+        let mut r0 = PolynomialRevelationProtocol { parms_id: pid, participant: &p0, broadcasted: vec![None, None, None], result: sh(s[0], s[1]) };
+        let quiet = PolynomialRevelationProtocol { parms_id: pid, participant: &p0, broadcasted: vec![None, None, None], result: sh(s[0], s[1]) };
+        let r1 = PolynomialRevelationProtocol { parms_id: pid, participant: &p1, broadcasted: vec![None, None, None], result: sh(s[2], s[3]) };
+        let r2 = PolynomialRevelationProtocol { parms_id: pid, participant: &p2, broadcasted: vec![None, None, None], result: sh(s[4], s[5]) };
+        let mut m1 = Sink::new(); r1.send(&mut m1).unwrap();
+        let mut m2 = Sink::new(); r2.send(&mut m2).unwrap();
+        r0.receive(1, &mut Src { buf: m1.buf, pos: 0, end: m1.len }).unwrap();
+        let mut m0 = Sink::new(); r0.send(&mut m0).unwrap();
+        let mut mq = Sink::new(); quiet.send(&mut mq).unwrap();
+        let k: usize = kani::any(); kani::assume(k < 128);
+        kani::cover!(s[2] != 0 && k < mq.len);
+        assert!(m0.len == mq.len && m0.buf[k] == mq.buf[k]);
+        r0.receive(1, &mut Src { buf: m1.buf, pos: 0, end: m1.len }).unwrap();
+        r0.receive(2, &mut Src { buf: m2.buf, pos: 0, end: m2.len }).unwrap();
+        let out = r0.finish();
+        assert!(out.len() == 2);
+        assert!(out[0] == (s[0] as u64 + s[2] as u64 + s[4] as u64) % 97);
+        assert!(out[1] == (s[1] as u64 + s[3] as u64 + s[5] as u64) % 97);
+        std::mem::forget(ctx);
+    }
+
+    // @harness id=C18 tier=quick unwind=10 timeout=2400 fs=4096
     // @desc a party that is still missing another party's message refuses to finish (panics) instead of producing a partial sum
     // @bounds BFV N=2, q={97}; 3 parties; exactly one of the two foreign messages delivered (which one: symbolic)
     // @funcs PolynomialRevelationProtocol::receive, PolynomialRevelationProtocol::finish
